@@ -42,7 +42,7 @@ def run(ctx, deep=False):
     ctx.coverage["rule"] = (
         "streams of 1..3 frames written by the real send path (all registered message ids, wrappers included, both generations); "
         "every single cut point, every pair of cut points for short streams, random multi-cut segmentations, byte-by-byte delivery, "
-        "with 0..60 loop turns or pauses of 1/8 s .. 5 min between segments and before the stream; fed to the real AirTouchSocket through the in-memory transport and the real "
+        "with 0..60 loop turns or pauses of 1/8 s .. 5 min between segments and before the stream, in a third of the runs with the application transmitting between the segments; fed to the real AirTouchSocket through the in-memory transport and the real "
         "asyncio StreamReader; the delivered (header, message) lists must equal those of the unsegmented delivery and the Lean "
         "model's `parse` of the same bytes. distinct = distinct (stream, segmentation) pairs")
     import frame_try
@@ -67,8 +67,14 @@ def run(ctx, deep=False):
             meta.append((st, None))
             for cuts in _cuts(st, rng, thorough)[: (400 if thorough else 60)]:
                 sc = [("net", "accept"), ("open",), ("adv", rng.choice([8, 8, 231, 239, 2392]))]
+                talk = rng.random() < 0.35          # the application transmits while frames are half received (a control call, a heartbeat)
+                sid = 0
                 for seg in _segments(st, cuts):
                     sc.append(("peerbytes", seg.hex()))
+                    if talk and rng.random() < 0.6:
+                        sid += 1
+                        sc.append(("turn", rng.choice([0, 1, 2])))
+                        sc.append(("send", sid, "ok", rng.choice(["idem", "nonidem", "conn"])))
                     if rng.random() < 0.3:
                         # the network stalls in the middle of the stream (segments seconds or minutes apart)
                         sc.append(("adv", rng.choice([1, 8, 9, 80, 239, 241, 400, 2400])))
